@@ -435,6 +435,10 @@ func runC13(p *Prog, l *Ledger) {
 			k3 := fmt.Sprintf("%s/wait#%d", key, i+1)
 			npaths := 0
 			var bad3 []string
+			// freshness: the remaining time must be re-computed from the configured deadline in the same loop iteration as the wait
+			if why := c13FreshBound(p, f, w, arg); why != "" {
+				bad3 = append(bad3, why)
+			}
 			EnumPathsPrefix(f, w, 100000, func(pa *Path) bool {
 				npaths++
 				pr := &prover{p: p, pa: pa, step: len(pa.Blocks) - 1}
@@ -672,4 +676,80 @@ func c13ReachesWithin(from, to *ssa.BasicBlock, w, a ssa.Instruction) bool {
 		return false
 	}
 	return dfs(from)
+}
+
+// c13FreshBound: the computed bound comes from deadline.Sub(now) / time.Until(deadline) on the receiver's deadline
+// field, evaluated inside every loop that contains the wait (so each retry waits only for what is left).
+func c13FreshBound(p *Prog, f *ssa.Function, wait *ssa.Call, arg ssa.Value) string {
+	var clocks []*ssa.Call
+	usesDeadline := false
+	seen := map[ssa.Value]bool{}
+	var walk func(v ssa.Value, d int)
+	walk = func(v ssa.Value, d int) {
+		if v == nil || d > 10 || seen[v] {
+			return
+		}
+		seen[v] = true
+		v = strip(v, true)
+		switch x := v.(type) {
+		case *ssa.Phi:
+			for _, e := range x.Edges {
+				walk(e, d+1)
+			}
+		case *ssa.BinOp:
+			walk(x.X, d+1)
+			walk(x.Y, d+1)
+		case *ssa.Convert:
+			walk(x.X, d+1)
+		case *ssa.UnOp:
+			if al, ok := x.X.(*ssa.Alloc); ok {
+				if refs := al.Referrers(); refs != nil {
+					for _, r := range *refs {
+						if st, ok := r.(*ssa.Store); ok && st.Addr == ssa.Value(al) {
+							walk(st.Val, d+1)
+						}
+					}
+				}
+			}
+			if fr, _, ok := loadedField(x); ok {
+				if nt, ok := structOf(fr.Type).Field(fr.Index).Type().(*types.Named); ok && nt.Obj().Name() == "Time" {
+					usesDeadline = true
+				}
+			}
+		case *ssa.Call:
+			c := p.CallOf(x)
+			switch c.Name {
+			case "(time.Time).Sub", "time.Until", "time.Now", "(time.Time).UTC", "time.Since":
+				clocks = append(clocks, x)
+				if c.Recv != nil {
+					walk(c.Recv, d+1)
+				}
+				for _, a := range c.Args {
+					walk(a, d+1)
+				}
+			}
+		}
+	}
+	walk(arg, 0)
+	if len(clocks) == 0 {
+		return "the computed wait bound does not come from the clock (deadline.Sub(now) / time.Until(deadline))"
+	}
+	if !usesDeadline {
+		return "the computed wait bound does not derive from the limiter's configured deadline"
+	}
+	for _, b := range f.Blocks {
+		if !isLoopHeader(b) || !b.Dominates(wait.Block()) {
+			continue
+		}
+		// wait is inside the loop headed by b (it can reach b again)
+		if !blockReaches(wait.Block(), b, map[*ssa.BasicBlock]bool{}) {
+			continue
+		}
+		for _, c := range clocks {
+			if !b.Dominates(c.Block()) {
+				return fmt.Sprintf("%s: the time left until the deadline is computed once outside the retry loop; after a fruitless wake-up the next wait reuses the stale bound and outlasts the deadline", p.At(c))
+			}
+		}
+	}
+	return ""
 }
